@@ -5,6 +5,7 @@
     C10.cdt <PG|MPG>                       => ct <ok n TR…|err> co <ok n TR…|err> un <ok n TR…|err>
     C10.mono <PG|MPG> Q x0 y0 step nx ny   => n <k> (top <pts> bot <pts> poly <k> <ring>…)* pi <bits> mi <bits> pos <chars>*
     C10.stitch <earcut|cdt> <PG|MPG>       => tris <ok n TR…|err> res <ok <MPG…>|err>
+    C10.monobuild <PG|MPG>                 => n <k> (top <pts> bot <pts>)* | panic
 -/
 import GeoModel.Parse
 import GeoModel.Traverse
@@ -15,6 +16,7 @@ import GeoModel.Area
 import GeoModel.Triangulate
 import GeoModel.MonoPoly
 import GeoModel.Tiling
+import GeoModel.MonoBuild
 
 namespace Geo.Ops.C10
 open Geo Geo.P Geo.Tri Geo.Mono Geo.Tiling
@@ -309,6 +311,66 @@ def handleMono (inp out : List String) : String :=
         ("mi " ++ o.mi ++ " pos " ++ String.intercalate " " o.pos)
   | _, _ => "ERR parse"
 
+/-! #### the builder of the monotone pieces against its model -/
+
+def buildOut : P (Option (List MonoPoly)) := do
+  let t ← tok
+  match t with
+  | "panic" => pure none
+  | "n" => do
+    let k ← nat
+    let ps ← rep k (do
+      lit "top"; let a ← pts
+      lit "bot"; let b ← pts
+      pure (⟨a, b⟩ : MonoPoly))
+    pure (some ps)
+  | _ => fail
+
+def chainStr (c : List Pt) : String := String.intercalate "," (c.map Pt.str)
+
+def piecesStr : Option (List MonoPoly) → String
+  | none => "panic"
+  | some ms => "n " ++ toString ms.length ++
+      String.join (ms.map (fun m => " top " ++ chainStr m.top ++ " bot " ++ chainStr m.bot))
+
+/-- the largest number of input lines meeting in one end point (`sort_by` is mirrored as the insertion sort
+that std uses up to 20 elements) -/
+def maxFan (ls : List MonoBuild.LoP) : Nat :=
+  let ends := ls.flatMap (fun l => [l.left, l.right])
+  ends.foldl (fun m p => max m (ends.count p)) 0
+
+def handleMonoBuild (inp out : List String) : String :=
+  match P.run geometry inp, P.run buildOut out with
+  | some g, some o =>
+    match polysOf g with
+    | none => "ERR monobuild-needs-polygon"
+    | some ps =>
+      if maxFan (MonoBuild.inputLines ps) > 20 then skip "more-than-20-lines-at-a-point" else
+      let final := MonoBuild.buildState ps
+      let model := final.map (·.outputs)
+      let same := model == o
+      let valid := validGeom g
+      -- the property verdict is the tiling verdict on the implementation's pieces (valid inputs only)
+      let prop :=
+        if !valid then "PASS" else
+        match o with
+        | none => if isEmptyG g then "PASS" else "FAIL:monotone-subdivision-panic"
+        | some ms =>
+          if !(ms.all wellFormed) then "FAIL:piece-chains-not-lexicographically-increasing"
+          else clauseStr (tilesClause .notOutside (ms.map (fun m => (intoPolygon m).ext)) g)
+      let cls := shapeTags g ++ (if valid then " domain=valid" else " domain=invalid") ++
+        (match o with | none => " impl=panic" | some ms => " pieces=" ++ toString ms.length) ++
+        " lines=" ++ toString (MonoBuild.inputLines ps).length ++
+        (match final with
+         | some st => " splits=" ++ toString (st.segs.length - (MonoBuild.inputLines ps).length) ++
+             " chains=" ++ toString st.chains.length
+         | none => "") ++
+        (match model with
+         | some ms => if ms.all wellFormed then "" else " model-pieces-not-wellformed"
+         | none => "")
+      reply same prop cls (piecesStr model) (piecesStr o)
+  | _, _ => "ERR parse"
+
 /-! #### stitch -/
 
 structure StitchOut where
@@ -392,6 +454,7 @@ def handle (op : String) (inp out : List String) : Option String :=
   | "C10.cdt" => some (handleCdt inp out)
   | "C10.mono" => some (handleMono inp out)
   | "C10.stitch" => some (handleStitch inp out)
+  | "C10.monobuild" => some (handleMonoBuild inp out)
   | _ => none
 
 end Geo.Ops.C10
